@@ -32,3 +32,15 @@ func TestCheck(t *testing.T) {
 func adminHdr(r *core.Rig) map[string]string {
 	return map[string]string{"Authorization": "Bearer " + r.Cfg.HTTP.AuthToken}
 }
+
+type errJSON struct {
+	Code    string `json:"code"`
+	Message string `json:"message"`
+}
+
+func trunc(b []byte) string {
+	if len(b) > 300 {
+		return string(b[:300]) + "..."
+	}
+	return string(b)
+}
